@@ -196,13 +196,15 @@ class Script:
         self.lines.append(line)
         self.ann.append(ann)
 
-    def send(self, c, msgs, cuts=None, wf=True, one=False):
+    def send(self, c, msgs, cuts=None, wf=True, one=False, opts=""):
         data = b"".join(m[0] for m in msgs)
         line = "send %d %s" % (c, hx(data))
         if cuts:
             line += " cuts=" + ",".join(str(x) for x in cuts)
         if one:
             line += " one=1"
+        if opts:
+            line += " " + opts            # WebSocket framing options (frag=1, ctl=pingN|pongN): ignored by TCP clients and by the model
         self.op(line, {"c": c, "wf": wf, "msgs": [list(m[1]) for m in msgs], "n": len(data)})
 
     def text(self):
@@ -277,7 +279,8 @@ def gen_mix(rng, nops):
                 else:
                     msgs.append(rnd_closing(rng))
             n = sum(len(m[0]) for m in msgs)
-            sc.send(c, msgs, rnd_cuts(rng, n), one=rng.random() < 0.2)
+            sc.send(c, msgs, rnd_cuts(rng, n), one=rng.random() < 0.2,
+                    opts=rng.choice(["", "", "frag=1", "frag=1 ctl=ping0", "frag=1 ctl=pong4", "frag=1 ctl=ping8"]))
             if any(m[1][0] == "closing" for m in msgs):
                 live.remove(c)
         elif r < 0.70:
@@ -435,6 +438,13 @@ def gen_seg(rng, which, kcuts, ws=False, sample=None):
         cl = rng.sample(cl, sample)
     for cuts in cl:
         sc.send(1, msgs + [m_key(1, 0x53454E54)], cuts)
+    if ws and kcuts == 1:
+        # the same cuts as FRAGMENTS of one WebSocket message (FIN only on the last frame), bare and
+        # with a ping / pong control frame between the fragments (with and without payload)
+        ctls = ["", "ctl=ping0", "ctl=pong0", "ctl=ping4", "ctl=pong8"]
+        for k, cuts in enumerate(cl):
+            sc.send(1, msgs + [m_key(1, 0x53454E54)], cuts, opts=("frag=1 " + ctls[k % len(ctls)]).strip())
+        sc.send(1, msgs + [m_key(1, 0x53454E54)], [1, n // 2 + 1, n + 2], opts="frag=1 ctl=ping4", one=True)
     if ws:
         sc.send(1, msgs + [m_key(1, 0x53454E54)] + msgs)                    # several messages in one frame
         sc.send(1, msgs + [m_key(1, 0x53454E54)], [n // 2, n + 3], one=True)  # several frames in one segment
@@ -946,6 +956,26 @@ def ws_scenarios(pw):
             ("scale0+ptr", 0, "eof", pre + [("F", b"\x01\x01" + bytes([8, 0, 0, 0]) + ptr + key)], "refused"),
             ("key,filetransfer+key", 0, "eof", pre + [("F", b"\x01\x01" + key), ("F", bytes([7] + [0] * 11) + key)], [kcb]),
         ]
+    # several connections: an item may be prefixed with the connection number; (k, "X") = viewer k goes away
+    p = lambda mask, x, y: m_ptr(mask, x, y)[0]
+    if pw:
+        hs = lambda k: [(k, "F", v8), (k, "F", b"\x02"), (k, "A", "full", b"\x01")]
+    else:
+        hs = lambda k: [(k, "F", v8), (k, "F", b"\x01\x01")]
+    out += [
+        # A presses a button and disconnects without releasing it: afterwards B's pointer events must all arrive
+        ("holder-disconnects", 0, "cb3", hs(1) + hs(2) + [(1, "F", p(1, 5, 6)), ("W", 1), (1, "X"),
+                                                          (2, "F", p(0, 3, 4)), (2, "F", p(1, 9, 9))],
+         ["ptr c1 1 5 6", "ptr c2 0 3 4", "ptr c2 1 9 9"]),
+        # ... the same when the SERVER drops A (unknown message type) while it holds the button
+        ("holder-dropped-by-server", 0, "cb3", hs(1) + hs(2) + [(1, "F", p(4, 1, 2)), ("W", 1), (1, "F", b"\xfd"), (1, "X"),
+                                                                (2, "F", p(0, 3, 4)), (2, "F", p(2, 9, 9))],
+         ["ptr c1 4 1 2", "ptr c2 0 3 4", "ptr c2 2 9 9"]),
+        # control: after A's release B is served
+        ("holder-releases", 0, "cb3", hs(1) + hs(2) + [(1, "F", p(1, 5, 6)), ("W", 1), (1, "F", p(0, 5, 6)), ("W", 2),
+                                                       (2, "F", p(0, 3, 4))],
+         ["ptr c1 1 5 6", "ptr c1 0 5 6", "ptr c2 0 3 4"]),
+    ]
     return out
 
 
@@ -959,20 +989,33 @@ def run_wsthread(ctx, d):
     for pw in (0, 1):
         scs = ws_scenarios(pw)
         lines, meta = [], []
-        for proto in ("bin", "b64"):
+        for proto in ("bin", "b64", "tcp"):
             for (name, hook, wait, items, verdict) in scs:
                 toks = []
-                model = ["screen 64 48 %d 0 0" % pw, "hookvo %d" % hook, "conn 1 ws"]
+                model = ["screen 64 48 %d 0 0" % pw, "hookvo %d" % hook]
+                opened = set()
                 for it in items:
+                    k = 1
+                    if it[0] == "W":
+                        toks.append("W%d" % it[1])
+                        continue
+                    if isinstance(it[0], int):
+                        k, it = it[0], it[1:]
+                    if k not in opened:
+                        opened.add(k)
+                        model.append("conn %d%s" % (k, "" if proto == "tcp" else " ws"))
                     if it[0] == "F":
-                        toks.append("F:" + hx(it[1]))
-                        model.append("send 1 " + hx(it[1]))
+                        toks.append("%dF:%s" % (k, hx(it[1])))
+                        model.append("send %d %s" % (k, hx(it[1])))
+                    elif it[0] == "X":
+                        toks.append("%dX" % k)
+                        model += ["eof %d" % k, "pump"]
                     else:
-                        toks.append("A:%s:%s" % (it[1], hx(it[2])))
+                        toks.append("%dA:%s:%s" % (k, it[1], hx(it[2])))
                         if it[1] == "bad":
-                            model.append("send 1 " + hx(b"\x55" * 16 + it[2]))
+                            model.append("send %d %s" % (k, hx(b"\x55" * 16 + it[2])))
                         else:
-                            model.append("auth 1 %s%s" % (it[1], (" extra=" + hx(it[2])) if it[2] else ""))
+                            model.append("auth %d %s%s" % (k, it[1], (" extra=" + hx(it[2])) if it[2] else ""))
                 lines.append("scn %s %s %d %s %s" % (name, proto, hook, wait, " ".join(toks)))
                 meta.append((name, proto, verdict, "\n".join(model) + "\n"))
         for mode in ("thr", "st"):
@@ -982,7 +1025,7 @@ def run_wsthread(ctx, d):
         pw, mode, lines, meta = job
         return ctx.run_lines(exe, "\n".join(lines) + "\n", timeout=900, args=[mode, str(pw)])
 
-    for (pw, mode, lines, meta), (rc, out, err) in zip(jobs, common.pmap(one, jobs, workers=2)):
+    for (pw, mode, lines, meta), (rc, out, err) in zip(jobs, common.pmap(one, jobs, workers=4)):
         what = "gating on real sockets (WebSocket, %s loop, %s screen)" % (
             "threaded" if mode == "thr" else "single-threaded", "password" if pw else "open")
         if rc != 0:
